@@ -115,11 +115,16 @@ class Check:
     # ---------- Go harness ----------
     def build(self, cmd, tags="verif", race=False):
         h = os.path.join(VERIF, "harness")
-        subprocess.run([sys.executable, os.path.join(h, "genmod.py"), REPO], check=True)
+        # per-run go.mod/go.sum (-modfile) so that concurrent checks with different VERIF_REPO cannot race
+        moddir = os.path.join(self.scratch, "mod")
+        os.makedirs(moddir, exist_ok=True)
+        subprocess.run([sys.executable, os.path.join(h, "genmod.py"), REPO, moddir], check=True)
+        if not os.path.exists(os.path.join(h, "go.mod")):
+            subprocess.run([sys.executable, os.path.join(h, "genmod.py"), "/repo"], check=True)
         out = os.path.join(self.scratch, "bin", cmd + ("-race" if race else ""))
         os.makedirs(os.path.dirname(out), exist_ok=True)
         env = go_env()
-        args = ["go", "build", "-tags", tags, "-o", out]
+        args = ["go", "build", "-modfile", os.path.join(moddir, "go.mod"), "-tags", tags, "-o", out]
         if race:
             args.append("-race")
         args.append("./cmd/" + cmd)
@@ -258,11 +263,16 @@ class Check:
                     hwm = int(m.group(1))
             if hwm is None:
                 raise InfraError("trace validation produced no HWM (%s/%s):\n%s" % (module, cfg, r.out[-5000:]))
+            if r.violated not in (None, "postcondition"):
+                # an INVARIANT / action property of the trace cfg failed: TLC stops at once and the high-water
+                # register is meaningless; the offending event is the last one consumed in the printed error trace
+                ls = [int(x) for x in re.findall(r"/\\ l = (\d+)", r.out)]
+                if not ls:
+                    raise InfraError("trace spec error: %s\n%s" % (r.violated, r.out[-4000:]))
+                hwm = max(ls[-1] - 2, 0)
             self.cov["states"] += r.distinct
             self.cov["transitions"] += r.generated
             if hwm >= len(lines):
-                if r.violated and r.violated != "postcondition":
-                    raise InfraError("trace spec error: %s\n%s" % (r.violated, r.out[-4000:]))
                 self.cov["traces_validated_against_impl"] += len(pending)
                 pending = []
             else:
@@ -270,6 +280,7 @@ class Check:
                 name, evs = pending[ti]
                 rej.append(dict(trace=name, index=ei, event=evs[ei] if ei >= 0 else None,
                                 prev=evs[ei - 1] if ei > 0 else None, events=evs,
+                                invariant=r.violated if r.violated not in (None, "postcondition") else None,
                                 tlc_tail=r.out[-1500:] if r.violated not in (None, "postcondition") else ""))
                 self.cov["traces_validated_against_impl"] += ti
                 pending = pending[ti + 1:]
